@@ -59,15 +59,13 @@ def gen(rng, n):
              'Ei': loguniform(rng, 1e-3, 1e4) * 1.602176634e-22, 'Ef': loguniform(rng, 1e-3, 1e4) * 1.602176634e-22,
              'L1': loguniform(rng, 0.1, 1e3), 'L2': loguniform(rng, 0.1, 1e3),
              'units': {'tof': tu[0], 'L1': rng.choice(LUNITS)[0], 'L2': rng.choice(LUNITS)[0],
-                       'E': rng.choice(EUNITS[:3])[0]},
+                       'E': rng.choice(['meV', 'meV', 'eV', 'ueV'])},
              'dtypes': {'tof': dt_tof, 'L1': rng.choice(['float64', 'float32', 'int64']) if rng.random() < 0.3 else 'float64',
                         'L2': rng.choice(['float64', 'float32']) if rng.random() < 0.3 else 'float64', 'E': dt_E},
              'ks': KS, 'extra': [0.5, 0.999, 1 - 1e-6, 1 - 1e-9, 1 + 1e-9, 1 + 1e-6, 1.001, 1.5, 3.0, 10.0]}
         for k in ('L1', 'L2'):
             if g['dtypes'][k] == 'int64':
                 g['units'][k] = 'mm'
-        if rng.random() < 0.25:
-            g['units']['E'] = 'ueV'
         # every third group: the fixed energy in J, double precision throughout for half of them (the unit in which a
         # physical neutron energy is a very small number, 1.6e-25..1.6e-18)
         if i % 3 == 1:
